@@ -88,6 +88,72 @@ Proof.
   split; [exact linspace_exact_dyadic_example|exact linspace_last_not_b].
 Qed.
 
+(* linspace at binary64 for ANY size n >= 2 when the step is exact: endpoints ma 2^e, mb 2^e on a common exponent with
+   (n - 1) | (mb - ma) -- e.g. integer endpoints whose difference is a multiple of the number of intervals
+   (linspace(0,10,11)); the dyadic case above is the instance n - 1 = 2^k on the grid 2^(e-k).  Every element is
+   exactly (ma + d i) 2^e = a + (b - a) i / (n - 1), the last one is b itself. *)
+Theorem linspace_exact_divisible_float : forall (a b : PrimFloat.float) (ma mb d e : Z) (n : nat) (v : list PrimFloat.float),
+  ffinite a -> FR a = (IZR ma * bpow radix2 e)%R -> ffinite b -> FR b = (IZR mb * bpow radix2 e)%R ->
+  (2 <= n)%nat -> (Z.of_nat n < 2 ^ 53)%Z -> (-1074 <= e <= 971)%Z ->
+  (mb - ma = d * (Z.of_nat n - 1))%Z ->
+  (Z.abs (mb - ma) < 2 ^ 53)%Z -> (Z.abs ma < 2 ^ 53)%Z -> (Z.abs mb < 2 ^ 53)%Z ->
+  linspace (F := SAF) a b n = Ok v ->
+  length v = n /\
+  (forall i, (i < n)%nat ->
+     ffinite (nth i v 0%float) /\
+     FR (nth i v 0%float) = (FR a + (FR b - FR a) * INR i / INR (n - 1))%R /\
+     FR (nth i v 0%float) = (IZR (ma + d * Z.of_nat i) * bpow radix2 e)%R) /\
+  FR (nth (n - 1) v 0%float) = FR b /\
+  (FR b <> 0%R -> nth (n - 1) v 0%float = b).
+Proof.
+  intros a b ma mb d e n v Fa Ra Fb Rb Hn Hn' He Hdiv Hd Ha Hb E.
+  exact (linspace_exact_divisible_float_lemma a b ma mb d e n v Fa Ra Fb Rb Hn Hn' He Hdiv Hd Ha Hb E).
+Qed.
+Check linspace_exact_divisible_float : forall (a b : PrimFloat.float) (ma mb d e : Z) (n : nat) (v : list PrimFloat.float),
+  ffinite a -> FR a = (IZR ma * bpow radix2 e)%R -> ffinite b -> FR b = (IZR mb * bpow radix2 e)%R ->
+  (2 <= n)%nat -> (Z.of_nat n < 2 ^ 53)%Z -> (-1074 <= e <= 971)%Z ->
+  (mb - ma = d * (Z.of_nat n - 1))%Z ->
+  (Z.abs (mb - ma) < 2 ^ 53)%Z -> (Z.abs ma < 2 ^ 53)%Z -> (Z.abs mb < 2 ^ 53)%Z ->
+  linspace (F := SAF) a b n = Ok v ->
+  length v = n /\
+  (forall i, (i < n)%nat ->
+     ffinite (nth i v 0%float) /\
+     FR (nth i v 0%float) = (FR a + (FR b - FR a) * INR i / INR (n - 1))%R /\
+     FR (nth i v 0%float) = (IZR (ma + d * Z.of_nat i) * bpow radix2 e)%R) /\
+  FR (nth (n - 1) v 0%float) = FR b /\
+  (FR b <> 0%R -> nth (n - 1) v 0%float = b).
+Print Assumptions linspace_exact_divisible_float.
+(* a = -3, b = 12, n = 6: step 3 *)
+Example linspace_exact_divisible_float_nonvacuous :
+  ffinite (-3)%float /\ FR (-3)%float = (IZR (-3) * bpow radix2 0)%R /\
+  ffinite 12%float /\ FR 12%float = (IZR 12 * bpow radix2 0)%R /\
+  (2 <= 6)%nat /\ (Z.of_nat 6 < 2 ^ 53)%Z /\ (-1074 <= 0 <= 971)%Z /\
+  (12 - -3 = 3 * (Z.of_nat 6 - 1))%Z /\
+  (Z.abs (12 - -3) < 2 ^ 53)%Z /\ (Z.abs (-3) < 2 ^ 53)%Z /\ (Z.abs 12 < 2 ^ 53)%Z /\
+  linspace (F := SAF) (-3)%float 12%float 6 = Ok [-3; 0; 3; 6; 9; 12]%float.
+Proof.
+  split; [exact (proj1 ex_lin_m3)|]. split; [exact (proj2 ex_lin_m3)|].
+  split; [exact (proj1 ex_lin_12)|]. split; [exact (proj2 ex_lin_12)|].
+  split; [lia|]. split; [simpl; lia|]. split; [lia|]. split; [simpl; lia|].
+  split; [simpl; lia|]. split; [simpl; lia|]. split; [simpl; lia|]. exact linspace_exact_divisible_example.
+Qed.
+
+(* the step h = (b - a)/((n as f64) - 1) of linspace is finite whenever b - a is finite and 2 <= n < 2^53
+   (discharges the hypothesis of linspace_first_exact_float; for n = 1 the step is a division by zero) *)
+Theorem linspace_step_finite_float : forall (a b : PrimFloat.float) (n : nat),
+  ffinite (b - a)%float -> (2 <= n)%nat -> (Z.of_nat n < 2 ^ 53)%Z ->
+  ffinite ((b - a) / (f_of_nat n - 1))%float.
+Proof. intros a b n Fd Hn Hn'. exact (lin_h_finite a b n Fd Hn Hn'). Qed.
+Check linspace_step_finite_float : forall (a b : PrimFloat.float) (n : nat),
+  ffinite (b - a)%float -> (2 <= n)%nat -> (Z.of_nat n < 2 ^ 53)%Z ->
+  ffinite ((b - a) / (f_of_nat n - 1))%float.
+Print Assumptions linspace_step_finite_float.
+Example linspace_step_finite_float_nonvacuous :
+  ffinite (1.75 - 0.25)%float /\ (2 <= 5)%nat /\ (Z.of_nat 5 < 2 ^ 53)%Z /\
+  (* n = 1: the step is not finite *)
+  PrimFloat.is_finite ((1.75 - 0.25) / (f_of_nat 1 - 1))%float = false.
+Proof. split; [vm_compute; reflexivity|]. split; [lia|]. split; [simpl; lia|vm_compute; reflexivity]. Qed.
+
 (* ==== C19 ==== *)
 (* Mesh1D::trapezium at binary64 ("integer-valued, so f64 results are exact"): node coordinates X_k 2^e and nodal
    data F_k 2^g (integer-valued data: g = 0; integer nodes: e = 0) with cell widths, neighbour sums and the running
